@@ -4,6 +4,7 @@ import (
 	"fmt"
 	"math/big"
 	"math/rand"
+	"os"
 	"strings"
 	"time"
 
@@ -63,6 +64,18 @@ func c08Gen(r *rand.Rand, tier string) []Case {
 		"vmon # k=3 path=send-b amt=S",
 		"vspend ? ? ? ? ? # k=3 path=send amt=S+1",
 		"vspend ? ? ? ? ? # k=3 path=send amt=S",
+	})
+	// fixed case: a small grant back-dated before the account's start is merged into an account that still has vesting
+	// events ahead; what the first grant leaves unvested must stay out of reach
+	out = append(out, Case{
+		"vgrant # k=4 off=0 lockup=10@0:1000000 vesting=5000@0:1000000",
+		"vtime # dt=20",
+		"vgrant # k=4 off=-4000 lockup=1@0:10 vesting=1@0:10",
+		"vtime # dt=2000",
+		"vspend ? ? ? ? ? # k=4 path=delegate-msg amt=S",
+		"vspend ? ? ? ? ? # k=4 path=send amt=S",
+		"vspend ? ? ? ? ? # k=4 path=send amt=S+1",
+		"vmon # k=4 path=evm-value amt=S",
 	})
 	paths := []string{"send", "multisend", "fee", "daofund", "govdeposit", "send", "fee"}
 	amts := []string{"S-1", "S+1", "S/2", "S/2", "B", "1", "1000", "S+1", "S"}
@@ -153,6 +166,34 @@ func c08Gen(r *rand.Rand, tier string) []Case {
 
 var c08Funded bool
 
+// The checks' own record of what each fixture account was granted (start time and vesting events in the staking
+// denomination), kept apart from what the account stores about itself: "unvested" in the property means unvested by
+// the grants as they were made, whatever a merge did to the stored schedule.
+type c08GhostGrant struct {
+	start  int64
+	events []c08GhostEvent // absolute time, amount
+}
+type c08GhostEvent struct {
+	at  int64
+	amt *big.Int
+}
+
+var c08Ghost = map[int][]c08GhostGrant{}
+
+func c08GhostUnvested(k int, t int64) *big.Int {
+	u := new(big.Int)
+	for _, g := range c08Ghost[k] {
+		for _, e := range g.events {
+			// (an event at exactly t counts as vested, as in the merged schedule of an account that started earlier;
+			// DESIGN.md §4: equality with the step function is claimed strictly after a grant's start)
+			if e.at > t {
+				u.Add(u, e.amt)
+			}
+		}
+	}
+	return u
+}
+
 func c08Exec(c Case) (outs []string, fails []Failure, tags []string) {
 	nw, kr := fixture()
 	app := nw.App
@@ -240,6 +281,21 @@ func c08Exec(c Case) (outs []string, fails []Failure, tags []string) {
 				}
 				write()
 				tags = append(tags, "grant-ok")
+				{
+					g := c08GhostGrant{start: start}
+					ps := vps
+					if len(ps) == 0 {
+						ps = sdkvesting.Periods{{Length: 0, Amount: lps.TotalAmount()}}
+					}
+					at := start
+					for _, p := range ps {
+						at += p.Length
+						if a := p.Amount.AmountOf(denom); a.IsPositive() {
+							g.events = append(g.events, c08GhostEvent{at: at, amt: a.BigInt()})
+						}
+					}
+					c08Ghost[k] = append(c08Ghost[k], g)
+				}
 				if stake {
 					tags = append(tags, "grant-with-stake")
 					ctx2 := nw.GetContext()
@@ -268,6 +324,23 @@ func c08Exec(c Case) (outs []string, fails []Failure, tags []string) {
 				}
 				write()
 				tags = append(tags, "claw-ok")
+				{
+					// a clawback takes what is unvested at this moment: those events are gone
+					t := ctx.BlockTime().Unix()
+					var kept []c08GhostGrant
+					for _, g := range c08Ghost[k] {
+						var ev []c08GhostEvent
+						for _, e := range g.events {
+							if e.at <= t {
+								ev = append(ev, e)
+							}
+						}
+						if len(ev) > 0 {
+							kept = append(kept, c08GhostGrant{start: g.start, events: ev})
+						}
+					}
+					c08Ghost[k] = kept
+				}
 				// vested coins stay under their old lockup: for the rest of the old schedule the account must keep
 				// locked what the old lockup schedule kept locked of the vested part
 				if va2, ok := app.AccountKeeper.GetAccount(nw.GetContext(), kr.GetAccAddr(k)).(*vestingtypes.ClawbackVestingAccount); ok && !vestedAtClaw.IsZero() {
@@ -488,6 +561,19 @@ func c08Exec(c Case) (outs []string, fails []Failure, tags []string) {
 						}
 					} else if lf := lockedFormula(va2, now); post.Cmp(lf) < 0 {
 						fl("C08:balance-below-locked:"+path, fmt.Sprintf("after spending %s via %s the balance %s is below max(original−unlockedVested−delegated, unvested) = %s", amt, path, post, lf))
+					}
+					if gu := c08GhostUnvested(k, now.Unix()); post.Cmp(gu) < 0 && os.Getenv("VERIF_DEBUG") != "" {
+						for _, g := range c08Ghost[k] {
+							fmt.Fprintf(os.Stderr, "ghost grant start=%d:", g.start)
+							for _, e := range g.events {
+								fmt.Fprintf(os.Stderr, " %d@%s", e.at, e.amt)
+							}
+							fmt.Fprintln(os.Stderr)
+						}
+						fmt.Fprintf(os.Stderr, "account start=%d end=%d now=%d vesting=%v\n", va2.GetStartTime(), va2.EndTime, now.Unix(), va2.VestingPeriods)
+					}
+					if gu := c08GhostUnvested(k, now.Unix()); post.Cmp(gu) < 0 {
+						fl("C08:balance-below-granted-unvested:"+path, fmt.Sprintf("after %s of %s the balance %s is below what the grants made to this account leave unvested at this time, %s (the account itself reports %s unvested)", path, amt, post, gu, va2.GetVestingCoins(now).AmountOf(denom)))
 					}
 				}
 			}
